@@ -39,7 +39,7 @@ func init() {
 			"Non-trivial+distinct = hash of (string, from, w) with k >= 1 (at least one bit extracted); PathsOf: hash of (keys, from, h, dedup) with >= 2 keys.",
 		Assumptions: []string{"from >= 0 and 0 <= w <= 32 (stated domain)", "oracle reads bits one at a time, MSB of each byte first"},
 		Flavours:    releaseAnd386,
-		Required: []string{"k=0/beyond-end", "k<w/clamped", "k=w", "from/aligned", "from/unaligned", "span/1", "span/2", "span/3", "span/4", "span/5",
+		Required: []string{"arguments-in-read-only-memory", "k=0/beyond-end", "k<w/clamped", "k=w", "from/aligned", "from/unaligned", "span/1", "span/2", "span/3", "span/4", "span/5",
 			"w=0", "w=32", "string>=50-bytes", "from>=MaxInt32-32", "pathsof/dedup-hit", "pathsof/dedup-off-repeat", "pathsof/all-ones-first", "pathof/h=0", "pathof/h=32"},
 		Families: func(c *mon.Config) []mon.Family {
 			return []mon.Family{
@@ -200,6 +200,12 @@ func c11CheckPathsOf(w *mon.W, keys []string, from, h int, dedup bool) {
 	guardK := func() bool { return true }
 	if keys != nil {
 		keys, guardK = argStrs(w, keys)
+		if roPickStrs(in) { // the key list - headers and bytes - in memory that cannot be written (ro.go)
+			if v, rel, ok := roOneStrs(w, in); ok {
+				keys = v
+				defer rel()
+			}
+		}
 	}
 	got := bmtree.PathsOf(keys, int32(from), int32(h), dedup)
 	if !guardK() {
